@@ -371,12 +371,83 @@ def unit_init(with_timeout):
     return run
 
 
+F_abspath = z3.Function('os_path_abspath', z3.StringSort(), z3.StringSort())
+F_realpath = z3.Function('os_path_realpath', z3.StringSort(), z3.StringSort())
+
+
+class DeleteModels19(NotifyModels):
+    """externals of util.delete_file_or_tree: os.unlink (succeeds or raises OSError), shutil.rmtree, os.path.abspath / realpath
+    (uninterpreted: a path may or may not be reached through a symbolic link)"""
+    def contract_for(self, ex, path, f, args, kw):
+        return CommonModels19.contract_for(self, ex, path, f, args, kw)
+
+    def callable_(self, ex, path, obj, args, kw):
+        import os
+        import shutil
+        if obj is os.unlink or obj is os.remove:
+            self.glog_add(path, 'unlink', args[0])
+            pr = path.fork()
+            b = ex.fresh_bool(pr, 'unlink_fails')
+            pr.assume(b)
+            path.assume(z3.Not(b))
+            return [(path, NONE)] + ex.raise_(pr, OSError, 'is a directory')
+        if obj is shutil.rmtree:
+            self.glog_add(path, 'rmtree', (args[0], dict(kw)))
+            return [(path, NONE)]
+        if obj is os.path.abspath and isinstance(args[0], VStr):
+            return [(path, VStr(F_abspath(args[0].t)))]
+        if obj is os.path.realpath and isinstance(args[0], VStr):
+            return [(path, VStr(F_realpath(args[0].t)))]
+        return NotifyModels.callable_(self, ex, path, obj, args, kw)
+
+
+from contracts.common import CommonModels as CommonModels19
+
+
+def unit_delete(n):
+    """util.delete_file_or_tree(*paths): every path is removed - as a file, or else as a tree - however it is spelled (the path
+    itself, its absolute or its resolved form); no path is skipped"""
+    def run(ctx):
+        ctx.fn('txtorcon.util', 'delete_file_or_tree')
+        from pyvc import extract
+        ex = ctx.ex
+        path = ctx.new_path()
+        mi, node = extract.find('txtorcon.util', 'delete_file_or_tree')
+        f = VFunc(node, 'txtorcon.util', 'delete_file_or_tree')
+        ps = [z3.String('path%d' % i) for i in range(n)]
+        for i, x in enumerate(ps):
+            ctx.input('path%d' % i, VStr(x))
+        ctx.cover('pre_satisfiable', path)
+        n_ok = 0
+        for p, r in ex.call(path, f, [VStr(x) for x in ps], {}):
+            if isinstance(r, Raise):
+                ctx.oblige('no_exception', p, B(False), clause='deletion errors are ignored')
+                continue
+            n_ok += 1
+            un = ctx.models.glog(p, 'unlink')
+            rm = ctx.models.glog(p, 'rmtree')
+            goals = []
+            for x in ps:
+                spellings = [x, F_abspath(x), F_realpath(x)]
+                hit = [zor(*[u.t == sp for sp in spellings]) for u in un if isinstance(u, VStr)] + \
+                      [zor(*[a.t == sp for sp in spellings]) for (a, k) in rm if isinstance(a, VStr)]
+                goals.append(zor(*hit) if hit else B(False))
+            ctx.oblige('post.every_given_path_is_removed_as_a_file_or_as_a_tree', p, zand(*goals) if goals else B(True),
+                       clause='a temporary data directory created for the launch is removed once the process has ended')
+        if not n_ok:
+            ctx.oblige('some_normal_exit', path, B(False))
+    return run
+
+
 def make_models_for(unit_name):
+    if 'delete_file_or_tree' in unit_name:
+        return DeleteModels19()
     return InitModels19() if '__init__' in unit_name else NotifyModels()
 
 
 def units():
-    out = [('C19/TorProcessProtocol.__init__@timeout', unit_init(True)), ('C19/TorProcessProtocol.__init__@no_timeout', unit_init(False))]
+    out = [('C19/TorProcessProtocol.__init__@timeout', unit_init(True)), ('C19/TorProcessProtocol.__init__@no_timeout', unit_init(False)),
+           ('C19/delete_file_or_tree@1', unit_delete(1)), ('C19/delete_file_or_tree@2', unit_delete(2))]
     for h in ('when_connected', '_maybe_notify_connected', '_timeout_expired', 'processEnded', '_status_client', 'outReceived', 'errReceived'):
         for notified in (False, True):
             out.append(('C19/%s@%s' % (h, 'outcome_known' if notified else 'pending'), unit_handler(h, notified)))
